@@ -41,9 +41,14 @@ EXPLANATION = (
     '(loops over constant tuples unrolled, conditional callables and filter() desugared, named conditions / module constants / list-growth '
     'spellings / small membership tests normalised); calls are bound by signature; findings need a closed world, else Undecided. '
     'R8 also: a strip of an item attribute from the installed name (man page locale) performed under tests of that attribute is not skipped on a path that never tests it. '
+    'R8 also: no field of an install record built in a loop depends on a local that the loop body redefines from per-item data and reads before defining it (a value carried over from the previous file, e.g. a guessed tag). '
+    'R9 every Optional[bool] (tri-state) parameter of an Installer method, e.g. follow_symlinks: for the explicit values True and False of the declared domain no rebinding of the parameter (or of a local holding it) to another value is reachable before a use, '
+    'the parameter is read and handed on as an argument, and a sibling method with a tri-state parameter of the same name is called with it. '
+    'R5c (interpreter.py) the mode given to build.EmptyDir (install_emptydir, a directory) does not flow through a function that removes S_ISVTX (the files-only sticky-bit stripper). '
     'Does NOT decide: which tag Backend.guess_install_tag assigns to an untagged entry (precedence between nested well-known directories is value-level and not documented), '
     'that the log of an --only-changed run still names the preserved files (they were not created by that run), validation of '
-    'install_mode owner/group values in the interpreter, that InstallData otherwise matches the build definition, idempotence beyond the remove-before-create clause, symlink-escapes through '
+    'install_mode owner/group values in the interpreter, that InstallData otherwise matches the build definition, idempotence beyond the remove-before-create clause, that the per-kind loops hand the item\'s follow_symlinks to the copier where the backend recorded one (R9 only checks forwarding between methods that both declare the parameter), whether the files-only sticky-bit stripper is applied where it should be, ' 
+    'symlink-escapes through '
     'pre-existing links, `..` components of install paths, or what custom install scripts write.')
 ASSUMPTIONS = [
     'the effect classification of os/shutil/subprocess members in sa/rules/c11_util.py follows the Python library reference',
@@ -53,7 +58,7 @@ ASSUMPTIONS = [
 TECHNIQUE = ('who-may-call over a classified effect table + CFG reachability under three-valued guard atoms (K2/K1); must-rootedness over all '
              'bindings (def-use) with interprocedural parameter demands (K3); decision tables by path enumeration, compared with references on all '
              'worlds of their atoms and by symbolic shape of outcomes/effects after copy propagation, constants folded (K6/K5); strip-set algebra '
-             'of the reader\'s str-method chain against the writer\'s folded terminator (K11-like); must-flow of unpacked item components and sanitiser flow in install-data generation (K3); source-to-source normal form first; no repository expression is evaluated on sample values')
+             'of the reader\'s str-method chain against the writer\'s folded terminator (K11-like); must-flow of unpacked item components, upward-exposed (loop-carried) reads in the def-use closure of record fields and sanitiser flow in install-data generation (K3); CFG reachability under the atoms of a declared Optional[bool] domain (R9); source-to-source normal form first; no repository expression is evaluated on sample values')
 
 
 # =============================================================================================
@@ -3084,6 +3089,143 @@ def _dropped_components(mod: Module, recs: T.Dict[str, T.List[str]]) -> T.Tuple[
     return out, nloops
 
 
+R8_CARRIED_EXAMPLE = """
+import typing as T
+class InstallDataBase:
+    def __init__(self, path, install_path, tag=None):
+        pass
+class InstallData:
+    def __init__(self):
+        self.data: T.List[InstallDataBase] = []
+class Backend:
+    def gen_sticky(self, d):
+        for de in self.items():
+            tag = de.install_tag
+            for f in de.sources:
+                dst = join(de.dir, f)
+                tag = tag or self.guess(dst)
+                d.data.append(InstallDataBase(f, dst, tag=tag))
+    def gen_clean(self, d):
+        for de in self.items():
+            mode = None
+            explicit = de.install_tag
+            for f in de.sources:
+                dst = join(de.dir, f)
+                if mode is None:
+                    mode = de.mode
+                tag = explicit
+                if not tag:
+                    tag = self.guess(dst)
+                d.data.append(InstallDataBase(f, dst + mode, tag=tag))
+"""
+
+
+def _funcs_mentioning(mod: Module, tokens: T.Iterable[str]) -> T.Dict[str, U.FuncNode]:
+    """Performance prefilter only (no decision hangs on it): the functions whose source lines mention one of the tokens."""
+    toks = tuple(tokens)
+    lines = [i + 1 for i, l in enumerate(mod.src.splitlines()) if any(t in l for t in toks)]
+    if not lines or (isinstance(mod, U.NormModule) and len(mod.funcs()) <= 120):     # small modules are inlined by the normal form: lines move
+        return dict(mod.funcs())
+    return {q: fn for q, fn in mod.funcs().items() if any(fn.lineno <= ln <= (fn.end_lineno or fn.lineno) for ln in lines)}
+
+
+class Carried(T.NamedTuple):
+    func: str
+    loop: ast.For
+    ctor: str
+    field: str
+    name: str
+    stmt: ast.AST
+
+
+def _stored_names(node: ast.AST) -> T.Set[str]:
+    return {n.id for n in ast.walk(node) if isinstance(n, ast.Name) and isinstance(n.ctx, (ast.Store, ast.Del))}
+
+
+def _loaded_names(node: ast.AST) -> T.Set[str]:
+    return {n.id for n in ast.walk(node) if isinstance(n, ast.Name) and isinstance(n.ctx, ast.Load)}
+
+
+def _loop_carried_fields(mod: Module, recs: T.Dict[str, T.List[str]]) -> T.Tuple[T.List[Carried], int]:
+    """Record fields whose value is carried over from an earlier iteration of the loop that builds the records: a local in the def-use
+    closure of a constructor argument that is (re)defined inside the loop body from per-iteration data, and is read on some path
+    from the loop head before the body has defined it (so iteration k sees what iteration k-1 computed)."""
+    out: T.List[Carried] = []
+    nsites = 0
+    for q, fn in _funcs_mentioning(mod, [f'{r}(' for r in recs]).items():
+        loops = [n for n in walk_no_nested(fn) if isinstance(n, ast.For)]
+        if not loops:
+            continue
+        cfg: T.Optional[CFG] = None
+        for lp in loops:
+            ctors = [c for b in lp.body for c in walk_no_nested(b) if isinstance(c, ast.Call) and isinstance(c.func, ast.Name) and c.func.id in recs]
+            if not ctors:
+                continue
+            body_stmts = [st for b in lp.body for st in walk_no_nested(b) if isinstance(st, ast.stmt)] + [b for b in lp.body]
+            # definitions inside the body: name -> [(statement, names its new value is computed from)]
+            defs: T.Dict[str, T.List[T.Tuple[ast.AST, T.Set[str]]]] = {}
+            for st in body_stmts:
+                if isinstance(st, ast.Assign):
+                    for x in _stored_names(ast.Tuple(elts=st.targets, ctx=ast.Store())):
+                        defs.setdefault(x, []).append((st, _loaded_names(st.value)))
+                elif isinstance(st, ast.AnnAssign) and st.value is not None:
+                    for x in _stored_names(st.target):
+                        defs.setdefault(x, []).append((st, _loaded_names(st.value)))
+                elif isinstance(st, ast.AugAssign):
+                    for x in _stored_names(st.target):
+                        defs.setdefault(x, []).append((st, _loaded_names(st.value) | {x}))
+                elif isinstance(st, ast.For):
+                    for x in _stored_names(st.target):
+                        defs.setdefault(x, []).append((st, _loaded_names(st.iter)))
+            fresh = _stored_names(lp.target) | {x for st in body_stmts if isinstance(st, ast.For) for x in _stored_names(st.target)}
+            for c in ctors:
+                nsites += 1
+                params = recs[c.func.id]       # type: ignore[attr-defined]
+                bound: T.List[T.Tuple[str, ast.AST]] = [(params[i] if i < len(params) else f'#{i}', a) for i, a in enumerate(c.args)] + \
+                    [(k.arg or '**', k.value) for k in c.keywords]
+                for field, arg in bound:
+                    # def-use closure of the argument inside the body, remembering the statements whose reads belong to it
+                    closure: T.Set[str] = set()
+                    readers: T.List[T.Tuple[ast.AST, T.Set[str]]] = [(c, _loaded_names(arg))]
+                    work = list(_loaded_names(arg))
+                    while work:
+                        x = work.pop()
+                        if x in closure:
+                            continue
+                        closure.add(x)
+                        for st, srcs in defs.get(x, []):
+                            readers.append((st, srcs))
+                            work += [y for y in srcs if y not in closure]
+                    for x in sorted(closure & set(defs) - _stored_names(lp.target)):
+                        # the in-body definitions of x depend on per-iteration data
+                        dep: T.Set[str] = set()
+                        work = [y for _, srcs in defs[x] for y in srcs]
+                        while work:
+                            y = work.pop()
+                            if y in dep:
+                                continue
+                            dep.add(y)
+                            work += [z for _, srcs in defs.get(y, []) for z in srcs]
+                        if not dep & fresh:
+                            continue
+                        if cfg is None:
+                            cfg = CFG(fn)
+                        it = _iter_node(cfg, lp)
+                        st_nodes = [n for st, _ in defs[x] for n in (cfg.stmt_nodes(st) if not isinstance(st, ast.For) else [_iter_node(cfg, st)])]
+                        reach = cfg.reachable([it], [it] + st_nodes, edge_ok=lambda a, b, lab, _it=it: not (a is _it and lab == 'done'))
+                        entered = set(reach)
+                        for n in st_nodes:
+                            if any(n.id in {b for b, _ in cfg.succ[a]} for a in list(reach) + [it.id]):
+                                entered.add(n.id)
+                        for rd, srcs in readers:
+                            if x not in srcs:
+                                continue
+                            nodes = cfg.node_containing(rd) if isinstance(rd, ast.Call) else (cfg.stmt_nodes(rd) if not isinstance(rd, ast.For) else [_iter_node(cfg, rd)])
+                            if any(n.id in entered for n in nodes) and not any(k.func == q and k.field == field and k.ctor == c.func.id for k in out):   # type: ignore[attr-defined]
+                                out.append(Carried(q, lp, c.func.id, field, x, rd))     # type: ignore[attr-defined]
+    return out, nsites
+
+
 def _subdir_basename_sites(mod: Module, recs: T.Dict[str, T.List[str]]) -> T.List[T.Tuple[str, ast.Call, ast.AST, ast.AST, str]]:
     """(function, constructor call, basename operand, recorded source path, verdict 'ok'|'raw'|'unknown') for records with
     (path, install_path) whose install_path has a basename(...) component appended."""
@@ -3266,6 +3408,20 @@ def r8(ctx: RuleCtx) -> None:
                       f'that component of the install rule is dropped (e.g. an alias symlink gets the tag of the primary output instead of its own, so --tags selects the wrong links)', lp)
     if not dropped:
         ctx.ok(f'{nloops} loops that unpack per-item tuples while building install records use every unpacked component')
+    exk = U.synthetic_module('example/backends.py', R8_CARRIED_EXAMPLE)
+    exc_, _ = _loop_carried_fields(exk, _record_classes(exk))
+    if [(k.func, k.field) for k in exc_] != [('Backend.gen_sticky', 'tag')]:
+        raise AnalysisError(f'C11.R8 built-in example (loop-carried field) not recognised: {exc_}')
+    ctx.ok('built-in example: `tag = tag or guess(dst)` with tag initialised outside the per-file loop is flagged; per-file and loop-invariant definitions are clean', nontrivial=False)
+    carried, nctor = _loop_carried_fields(mod, recs)
+    for k in carried:
+        ctx.violation(mod, k.func, f'{k.ctor}.{k.field} carried over from the previous iteration',
+                      f'the `{k.field}` of the {k.ctor} record built for one item of `{short(k.loop.iter, 50)}` is computed from `{k.name}`, which the loop body itself redefines from '
+                      f'per-item data and which `{short(k.stmt, 70)}` reads before this iteration has defined it: the value computed for an earlier item leaks into later records '
+                      f'(e.g. the tag guessed for the first file of an install_data() call sticks to all later files, so --tags selects the wrong files)', k.stmt)
+    if not carried:
+        ctx.ok(f'{nctor} record constructor calls inside loops: no field depends on a value computed by an earlier iteration')
+    ctx.floor('install record constructor calls inside loops', nctor, 1)
     sites = _subdir_basename_sites(mod, recs)
     for q, c, e, p_arg, v in sites:
         if v == 'unknown':
@@ -3284,6 +3440,297 @@ def r8(ctx: RuleCtx) -> None:
         ctx.note('no directory-tree record with a basename component found (nothing to compare)')
 
 
+
+# =============================================================================================
+# R9 tri-state options (Optional[bool] parameters such as follow_symlinks): an explicit value is honoured
+
+R9_EXAMPLE = """
+import typing as T
+class Installer:
+    def good(self, a, b, follow_symlinks: T.Optional[bool] = None) -> None:
+        if follow_symlinks is None:
+            follow_symlinks = True
+        self.copy2(a, b, follow_symlinks=follow_symlinks)
+    def good_local(self, a, b, follow_symlinks: T.Optional[bool] = None) -> None:
+        follow = True if follow_symlinks is None else follow_symlinks
+        self.copy2(a, b, follow_symlinks=follow)
+    def overridden(self, a, b, follow_symlinks: T.Optional[bool] = None) -> None:
+        if not follow_symlinks:
+            follow_symlinks = True
+        self.copy2(a, b, follow_symlinks=follow_symlinks)
+    def ignored(self, a, b, follow_symlinks: T.Optional[bool] = None) -> None:
+        self.copy2(a, b)
+    def not_forwarded(self, a, b, follow_symlinks: T.Optional[bool] = None) -> None:
+        print(follow_symlinks)
+        self.good(a, b)
+"""
+
+
+def _is_opt_bool(ann: T.Optional[ast.AST]) -> bool:
+    """The annotation declares the three-element domain {None, False, True}."""
+    if ann is None:
+        return False
+    if isinstance(ann, ast.Constant) and isinstance(ann.value, str):
+        try:
+            ann = ast.parse(ann.value, mode='eval').body
+        except SyntaxError:
+            return False
+    if isinstance(ann, ast.Subscript):
+        head = norm(ann.value).split('.')[-1]
+        sl = ann.slice
+        if head == 'Optional':
+            return norm(sl) == 'bool'
+        if head == 'Union' and isinstance(sl, ast.Tuple):
+            return sorted(norm(e) for e in sl.elts) == ['None', 'bool']
+    if isinstance(ann, ast.BinOp) and isinstance(ann.op, ast.BitOr):
+        return sorted([norm(ann.left), norm(ann.right)]) == ['None', 'bool']
+    return False
+
+
+def _tristate_params(fn: U.FuncNode) -> T.List[str]:
+    return [a.arg for a in fn.args.posonlyargs + fn.args.args + fn.args.kwonlyargs if _is_opt_bool(a.annotation)]
+
+
+def _tri_facts(names: T.Iterable[str], v: T.Optional[bool]) -> T.Dict[str, bool]:
+    """Truth values of the atoms over a name whose value is `v`, an element of the declared domain {None, False, True}."""
+    f: T.Dict[str, bool] = {}
+    for c in names:
+        f[c] = bool(v)
+        f[f'bool({c})'] = bool(v)
+        f[f'isinstance({c}, bool)'] = v is not None
+        for op, neg in (('is', 'is not'), ('==', '!=')):
+            for k in (None, True, False):
+                f[f'{c} {op} {k}'] = v is k
+                f[f'{c} {neg} {k}'] = v is not k
+                f[f'{k} {op} {c}'] = v is k
+                f[f'{k} {neg} {c}'] = v is not k
+    return f
+
+
+def _cond_leaves(e: ast.AST) -> T.List[ast.AST]:
+    if isinstance(e, ast.BoolOp):
+        return [x for v in e.values for x in _cond_leaves(v)]
+    if isinstance(e, ast.UnaryOp) and isinstance(e.op, ast.Not):
+        return _cond_leaves(e.operand)
+    if isinstance(e, ast.IfExp):
+        return _cond_leaves(e.test) + _cond_leaves(e.body) + _cond_leaves(e.orelse)
+    return [e]
+
+
+def _tested_names(leaf: ast.AST) -> T.Set[str]:
+    """Names whose value decides the atom: not those that are merely handed to a call evaluated inside it (`if self.copy(a, follow=p):` uses p,
+    it does not test it); bool()/isinstance() of the name do test it."""
+    out: T.Set[str] = set()
+    stack: T.List[ast.AST] = [leaf]
+    while stack:
+        x = stack.pop()
+        if isinstance(x, ast.Name):
+            out.add(x.id)
+        elif isinstance(x, ast.Call) and not (isinstance(x.func, ast.Name) and x.func.id in ('bool', 'isinstance')):
+            stack.append(x.func)
+        else:
+            stack += list(ast.iter_child_nodes(x))
+    return out
+
+
+def _r9_method(ctx: Ctx, mod: Module, cls: str, methods: T.Dict[str, U.FuncNode], name: str) -> int:
+    """Obligations of one method; returns the number of tri-state parameters read."""
+    fn = methods[name]
+    q = f'{cls}.{name}'
+    done = 0
+    for p in _tristate_params(fn):
+        done += 1
+        # carriers: the parameter and the locals that are assigned a carrier
+        carriers = {p}
+        grew = True
+        while grew:
+            grew = False
+            for st in walk_no_nested(fn):
+                if isinstance(st, ast.Assign) and len(st.targets) == 1 and isinstance(st.targets[0], ast.Name) and isinstance(st.value, ast.Name) \
+                        and st.value.id in carriers and st.targets[0].id not in carriers:
+                    carriers.add(st.targets[0].id)
+                    grew = True
+        cfg = CFG(fn)
+        stores: T.Dict[str, T.List[T.Tuple[ast.stmt, T.Optional[ast.AST]]]] = {}
+        for st in walk_no_nested(fn):
+            if not isinstance(st, ast.stmt):
+                continue
+            tnames = [n for n in ast.walk(st) if isinstance(n, ast.Name) and isinstance(n.ctx, (ast.Store, ast.Del)) and n.id in carriers] \
+                if not isinstance(st, (ast.If, ast.While, ast.For, ast.With, ast.Try, ast.FunctionDef, ast.AsyncFunctionDef, ast.ClassDef)) else []
+            if isinstance(st, (ast.For, ast.With)):
+                heads = [st.target] if isinstance(st, ast.For) else [i.optional_vars for i in st.items if i.optional_vars is not None]
+                if any(isinstance(n, ast.Name) and n.id in carriers for h in heads for n in ast.walk(h)):
+                    raise Undecided(f'{q}: `{p}` (or a local holding it) is rebound by a loop / with target')
+            for tn in tnames:
+                simple = isinstance(st, ast.Assign) and len(st.targets) == 1 and st.targets[0] is tn
+                stores.setdefault(tn.id, []).append((st, st.value if simple else None))   # type: ignore[union-attr]
+        if any(isinstance(n, ast.NamedExpr) and n.target.id in carriers for n in walk_no_nested(fn)):
+            raise Undecided(f'{q}: `{p}` is rebound by an assignment expression')
+
+        def is_carrier_value(e: T.Optional[ast.AST]) -> bool:
+            return isinstance(e, ast.Name) and e.id in carriers
+        # names whose value is the declared value of p whenever they are read: p itself, and locals that take another value only after
+        # having been given a carrier
+        trusted = {p}
+        for c in carriers - {p}:
+            cs = [n for st, e in stores.get(c, []) if is_carrier_value(e) for n in cfg.stmt_nodes(st)]
+            if all(is_carrier_value(e) or all(cfg.dominated_by_any(n, cs) for n in cfg.stmt_nodes(st)) for st, e in stores.get(c, [])):
+                trusted.add(c)
+        loads = [n for n in walk_no_nested(fn) if isinstance(n, ast.Name) and isinstance(n.ctx, ast.Load) and n.id in carriers]
+        arg_loads = [n for c in calls_in(fn) for a in list(c.args) + [k.value for k in c.keywords]
+                     for n in ast.walk(a) if isinstance(n, ast.Name) and isinstance(n.ctx, ast.Load) and n.id in carriers]
+        if not loads:
+            ctx.violation(mod, q, f'tri-state parameter {p} is never read',
+                          f'{q} accepts `{p}` (declared Optional[bool]: None = legacy default, True/False = the value given in the build definition) but never reads it: '
+                          f'an install rule with an explicit {p} is installed as if it had none', fn)
+            continue
+        if not arg_loads:
+            raise Undecided(f'{q}: `{p}` is only tested, never handed on as an argument: the copy calls of the arms would have to be compared')
+        bad = False
+        for v in (True, False):
+            facts = _tri_facts(trusted, v)
+            alias = {k: e for k, e in U.single_def_aliases(fn).items() if k not in carriers}
+            reach = U.feasible_reach(cfg, [cfg.entry], facts, alias, include_start=True)
+            for n in cfg.nodes:
+                if n.kind == 'test' and n.id in reach:
+                    for leaf in _cond_leaves(n.ast.test):    # type: ignore[union-attr]
+                        if _tested_names(leaf) & carriers and U.tv(leaf, facts, alias) is None:
+                            raise Undecided(f'{q}: `{p}` is tested through `{short(leaf)}`, which the domain {{None, False, True}} of the parameter does not decide')
+            for c in sorted(carriers):
+                for st, e in stores.get(c, []):
+                    if is_carrier_value(e) or (isinstance(e, ast.Constant) and e.value is v):
+                        continue
+                    nodes = cfg.stmt_nodes(st)
+                    if not nodes:
+                        raise Undecided(f'{q}: the rebinding of `{c}` is not on the CFG')
+                    if not any(n.id in reach for n in nodes):
+                        continue
+                    others = [n for st2, _ in stores.get(c, []) if st2 is not st for n in cfg.stmt_nodes(st2)]
+                    after = U.feasible_reach(cfg, nodes, facts, alias, avoid=others)
+                    used = [l for l in loads if l.id == c and any(n.id in after for n in cfg.node_containing(l))]
+                    if not used:
+                        continue
+                    if c not in trusted:
+                        raise Undecided(f'{q}: local `{c}` holds `{p}` on some paths and `{short(e) if e is not None else "another value"}` on others before it is used')
+                    bad = True
+                    val = short(e) if e is not None else 'another value'
+                    ctx.violation(mod, q, f'explicit {p}={v} replaced by {val} before use',
+                                  f'with an explicit {p}={v} the rebinding `{short(st)}` is reached (its guard is not limited to `{p} is None`) and the new value is then used: '
+                                  f'the value declared in the build definition is overridden (e.g. install_data(..., {p}: {str(v).lower()}) behaves like {val})', st)
+        if not bad:
+            ctx.ok(f'{q}: with an explicit `{p}` (True or False) no rebinding of it is reached before a use; carriers {sorted(carriers)}')
+    # forwarding: a call of a sibling method that has a tri-state parameter of the same name passes the caller's value on
+    mine = set(_tristate_params(fn))
+    for c in calls_in(fn):
+        callee = _self_method(c)
+        if callee is None or callee not in methods or callee == name:
+            continue
+        for p2 in _tristate_params(methods[callee]):
+            if p2 not in mine:
+                continue
+            if any(k.arg is None for k in c.keywords) or any(isinstance(a, ast.Starred) for a in c.args):
+                raise Undecided(f'{q}: `{short(c)}` forwards its arguments wholesale')
+            a_ = U.bind_args(c, methods[callee]).get(p2)
+            ctx.require(a_ is not None, f'{q}: `{p2}` is handed on to self.{callee}', mod, q, f'self.{callee}(...) without {p2}',
+                        f'{q} has the tri-state parameter `{p2}` but calls self.{callee} without it: the callee falls back to the legacy default and the declared value is lost', c)
+    return done
+
+
+def r9(ctx: RuleCtx) -> None:
+    ex = Rec()
+    exm = U.synthetic_module('example/minstall.py', R9_EXAMPLE)
+    exmeth = exm.methods('Installer')
+    for nm in exmeth:
+        _r9_method(ex, exm, 'Installer', exmeth, nm)
+    if sorted(f for f, _, _ in ex.v) != ['Installer.ignored', 'Installer.not_forwarded', 'Installer.overridden'] or len(ex.oks) != 3:
+        raise AnalysisError(f'C11.R9 built-in example not recognised: {ex.v} {ex.oks}')
+    ctx.ok('built-in example: `if not follow_symlinks:` override, an ignored and a not-forwarded tri-state parameter are flagged; `is None` default and the local-copy form are clean', nontrivial=False)
+    m = _model(ctx)
+    n = 0
+    for name in m.inst:
+        n += _r9_method(ctx, m.mod, 'Installer', m.inst, name)
+    ctx.floor('tri-state (Optional[bool]) parameters of Installer methods', n, 1)
+
+
+
+# =============================================================================================
+# R5c the declared mode of a directory-only install rule (install_emptydir) keeps its sticky bit
+
+INTERP = 'mesonbuild/interpreter/interpreter.py'
+BUILD = 'mesonbuild/build.py'
+
+R10_EXAMPLE = """
+import stat
+class Interpreter:
+    def _files_only(self, mode):
+        if mode.perms & stat.S_ISVTX:
+            return FileMode(stat.filemode(mode.perms - stat.S_ISVTX)[1:], mode.owner, mode.group)
+        return mode
+    def func_good(self, node, args, kwargs):
+        return build.EmptyDir(args[0], kwargs['install_mode'], self.subproject)
+    def func_bad(self, node, args, kwargs):
+        m = self._files_only(kwargs['install_mode'])
+        return build.EmptyDir(args[0], m, self.subproject)
+"""
+
+
+def _sticky_strippers(mod: Module) -> T.Dict[str, U.FuncNode]:
+    """Functions that compute a value with S_ISVTX removed (`x - S_ISVTX`, `x & ~S_ISVTX`, `x -= / &= ~ / ^=`), by short name."""
+    def is_sticky(e: ast.AST) -> bool:
+        return (attr_chain(e) or '').split('.')[-1] == 'S_ISVTX'
+    out: T.Dict[str, U.FuncNode] = {}
+    for q, fn in _funcs_mentioning(mod, ['S_ISVTX']).items():
+        for n in walk_no_nested(fn):
+            op, right = (n.op, n.right) if isinstance(n, ast.BinOp) else ((n.op, n.value) if isinstance(n, ast.AugAssign) else (None, None))
+            if op is None:
+                continue
+            if (isinstance(op, (ast.Sub, ast.BitXor)) and is_sticky(right)) or \
+                    (isinstance(op, ast.BitAnd) and isinstance(right, ast.UnaryOp) and isinstance(right.op, ast.Invert) and is_sticky(right.operand)) or \
+                    (isinstance(n, ast.BinOp) and isinstance(op, ast.BitAnd) and isinstance(n.left, ast.UnaryOp) and isinstance(n.left.op, ast.Invert) and is_sticky(n.left.operand)):
+                out[q.split('.')[-1]] = fn
+    return out
+
+
+def _r10_core(ctx: Ctx, mod: Module, mode_index: int, mode_field: str, ctor: str) -> int:
+    strippers = _sticky_strippers(mod)
+    n = 0
+    for q, fn in _funcs_mentioning(mod, [ctor]).items():
+        for c in calls_in(fn):
+            if (attr_chain(c.func) or '').split('.')[-1] != ctor:
+                continue
+            if any(isinstance(a, ast.Starred) for a in c.args) or any(k.arg is None for k in c.keywords):
+                raise Undecided(f'{q}: {ctor}(...) is built from unpacked arguments')
+            arg = kwarg(c, mode_field) or (c.args[mode_index] if len(c.args) > mode_index else None)
+            if arg is None:
+                raise Undecided(f'{q}: {ctor}(...) without a `{mode_field}` argument')
+            n += 1
+            org = Flow(fn, nested=False).origins(arg)
+            through = sorted(o.split(':', 1)[1].split('.')[-1] for o in org if o.startswith('call:') and o.split(':', 1)[1].split('.')[-1] in strippers)
+            for nm in through:
+                if len(U.params_of(strippers[nm])) != 1:
+                    raise Undecided(f'{q}: the mode of {ctor} passes through `{nm}`, which removes S_ISVTX under parameters the rule does not read')
+            ctx.require(not through, f'{q}: the `{mode_field}` of {ctor}(...) does not pass through a function that removes S_ISVTX (strippers: {sorted(strippers) or "none"})',
+                        mod, q, f'{ctor}.{mode_field} through {", ".join(through)}',
+                        f'the mode handed to {ctor} (a directory-only install rule) is first passed through `{", ".join(through)}`, which removes the sticky bit (meaningless for files only): '
+                        f"install_emptydir('spool', install_mode: 'rwxrwxrwt') creates the directory without S_ISVTX instead of with the declared mode", c)
+    return n
+
+
+def r10(ctx: RuleCtx) -> None:
+    ex = Rec()
+    _r10_core(ex, U.synthetic_module('example/interpreter.py', R10_EXAMPLE), 1, 'install_mode', 'EmptyDir')
+    if [f for f, _, _ in ex.v] != ['Interpreter.func_bad'] or len(ex.oks) != 1:
+        raise AnalysisError(f'C11.R5c built-in example not recognised: {ex.v} {ex.oks}')
+    ctx.ok('built-in example: an EmptyDir mode routed through the files-only sticky-bit stripper is flagged; the direct kwarg is clean', nontrivial=False)
+    bmod = ctx.repo.module(BUILD)
+    fields = [st.target.id for st in bmod.cls('EmptyDir').body if isinstance(st, ast.AnnAssign) and isinstance(st.target, ast.Name)]
+    modes = [f for f in fields if 'mode' in f]
+    if len(modes) != 1:
+        raise Undecided(f'build.EmptyDir: fields {fields}: exactly one mode field expected')
+    n = _r10_core(ctx, ctx.repo.module(INTERP), fields.index(modes[0]), modes[0], 'EmptyDir')
+    ctx.floor('build.EmptyDir constructor calls in the interpreter', n, 1)
+
+
 RULES = [
     Rule('C11.R1', 'mutating calls only in dry-run wrappers', r1),
     Rule('C11.R2', 'destinations rooted under DESTDIR', r2),
@@ -3297,4 +3744,6 @@ RULES = [
     Rule('C11.R6', 'pre-existing entry at a symlink destination is removed under a no-follow probe', r6),
     Rule('C11.R7', 'no restructuring of a collection while iterating it; os.walk pruning in place', r7),
     Rule('C11.R8', 'install-data generation: no dropped item component; subdir name from the recorded source path', r8),
+    Rule('C11.R9', 'an explicit tri-state option (follow_symlinks) is not overridden, ignored or dropped on the way to the copier', r9),
+    Rule('C11.R5c', 'the mode of install_emptydir (a directory) is not passed through the files-only sticky-bit stripper', r10),
 ]
